@@ -37,6 +37,23 @@ def Justified (unix : Bool) (pre : List Ev) : Prop :=
 def BeginsJustified (unix : Bool) (tr : List Ev) : Prop :=
   ∀ pre post, tr = pre ++ Ev.send (b!"BEGIN") :: post → Justified unix pre
 
+/-- The lines `AUTH …` among the lines written. -/
+def authLines : List Ev → List Bytes
+  | [] => []
+  | .send l :: t => if (b!"AUTH ").isPrefixOf l then l :: authLines t else authLines t
+  | _ :: t => authLines t
+
+/-- Strict form of `Justified`: the OK answers the mechanism in progress - between that OK and the BEGIN
+the client wrote no AUTH line (a REJECTED after OK, answered by the next AUTH, voids the OK) - and on a
+UNIX transport the NEGOTIATE_UNIX_FD and its answer lie after that OK. -/
+def JustifiedCurrent (unix : Bool) (pre : List Ev) : Prop :=
+  ∃ okl p1 p2, pre = p1 ++ Ev.recv okl :: p2 ∧ OkLine okl ∧ authLines p2 = [] ∧
+    (unix = true → ∃ ans, FdAnswer ans ∧
+      List.Sublist [Ev.send (b!"NEGOTIATE_UNIX_FD"), Ev.recv ans] p2)
+
+def BeginsJustifiedCurrent (unix : Bool) (tr : List Ev) : Prop :=
+  ∀ pre post, tr = pre ++ Ev.send (b!"BEGIN") :: post → JustifiedCurrent unix pre
+
 def Ev.isReaction : Ev → Bool
   | .send _ => true
   | .close => true
@@ -51,12 +68,6 @@ def ReactsToEveryLine (tr : List Ev) : Prop :=
 /-- After `loseConnection` the client writes no further line and does not authenticate. -/
 def SilentAfterClose (tr : List Ev) : Prop :=
   ∀ pre post, tr = pre ++ Ev.close :: post → ∀ e ∈ post, e = Ev.close
-
-/-- The lines `AUTH …` among the lines written. -/
-def authLines : List Ev → List Bytes
-  | [] => []
-  | .send l :: t => if (b!"AUTH ").isPrefixOf l then l :: authLines t else authLines t
-  | _ :: t => authLines t
 
 /-- `l` offers mechanism `m`: `AUTH <m>` or `AUTH <m> <initial response>`. -/
 def IsOfferOf (l m : Bytes) : Prop :=
